@@ -40,6 +40,8 @@ class Built:
         self.closers = []
         self.supplied = {}   # name -> array handed to dliswriter (for C19)
         self.data_arg = None
+        self.rejected = []
+        self.accepted_bad = []
 
 
 def call_order(spec):
@@ -58,6 +60,8 @@ def _units_value(u):
 def _attr_arg(a, resolve):
     """Keyword argument for one attribute according to its route ('later' handled by the caller)."""
     from dliswriter import AttrSetup
+    if 'raw' in a:
+        return a['raw']        # passed through verbatim (used for deliberately malformed arguments)
     v = model.to_python(a['v'], resolve) if 'v' in a else None
     u = _units_value(a.get('u'))
     r = a.get('r', 'kw')
@@ -75,8 +79,12 @@ def _attr_arg(a, resolve):
     return v
 
 
-def build(spec, scratch=None, stop_at=None):
-    """Execute the specification through the public API. Raises BuildError if a call raises."""
+def build(spec, scratch=None, stop_at=None, tolerate_flagged=False):
+    """Execute the specification through the public API. Raises BuildError if a call raises.
+
+    With tolerate_flagged, ops carrying a 'bad' flag may raise (recorded in Built.rejected) or be accepted (recorded in
+    Built.accepted_bad); building continues after them.
+    """
     dw.check_import_location()
     from dliswriter import DLISFile, StorageUnitLabel
     from dliswriter.logical_record.eflr_types import FileHeaderItem, FileHeaderSet
@@ -155,6 +163,8 @@ def build(spec, scratch=None, stop_at=None):
                     kwargs['dataset_name'] = op['dsname']
                 if op.get('cast') is not None:
                     kwargs['cast_dtype'] = getattr(np, op['cast'])
+            if op.get('extra_kw'):
+                kwargs.update(op['extra_kw'])
             item = getattr(lf, t['method'])(op['name'], **kwargs)
             b.items[(i, j)] = item
             for k, a in later:
@@ -163,7 +173,12 @@ def build(spec, scratch=None, stop_at=None):
                     attr.value = model.to_python(a['v'], resolve)
                 if a.get('u') is not None:
                     attr.units = _units_value(a['u'])
+            if op.get('bad'):
+                b.accepted_bad.append((i, j))
         except Exception as exc:
+            if tolerate_flagged and op.get('bad'):
+                b.rejected.append((i, j, exc))
+                continue
             raise BuildError(exc, i, j)
     return b
 
